@@ -51,7 +51,7 @@ TIERS = {
 MIN_SECONDS = 20.0
 
 INT_VALS = [1, 2, 3, 4]
-STR_VALS = {"operation": ["x", "y", "block_start", "block_end"], "name": ["a", "b", "c", "a"]}
+STR_VALS = {"operation": ["x", "y", "block_start", "block_end"], "name": ["a", "b", "\u00e4\u540d", "a"]}
 BASE_COLS = ["stmt_id", "operation", "name", "v"]
 KIND = {"stmt_id": "int", "operation": "str", "name": "str", "v": "int", "name2": "str", "v2": "int", "s_op": "str",
         "n1": "int", "s1": "str"}
